@@ -280,6 +280,13 @@ def run(chk, repo, tier):
     # the operands are left as they were: what is converted for a mixed-unit operation is a deep copy, converted by rebinding
     from .c15 import spectrum_storage_rules
     spectrum_storage_rules(chk, repo, 'C13-f')
+    # the second operand of a mixed-unit operation is converted with Spectrum.to: every value unit is rescaled with its grid
+    from . import c14 as _c14
+    from .common import Remap as _Remap13
+    from ..resilient import run_nested as _run_nested13
+    nd13 = list(chk.not_decided)
+    _run_nested13(_c14, _Remap13(chk, {'C14-c': 'C13-f'}), repo, tier, 'to_rules')
+    chk.not_decided[:] = nd13
     _, paths, _ = analyse(repo, fi, types={('sym', 's1'): cls, ('sym', 's2'): cls}, unroll=True)
     for p in returns(paths):
         tag = conds_str(p)[:80]
